@@ -17,7 +17,8 @@ Definition cpc_eqb (a c : cpc) : bool :=
 Definition cst_eqb (a c : cst) : bool :=
   cpc_eqb (pc a) (pc c) && Bool.eqb (acc_closing a) (acc_closing c) && Bool.eqb (fb_closing a) (fb_closing c) &&
   Bool.eqb (served a) (served c) && Bool.eqb (sock_closed a) (sock_closed c) &&
-  Bool.eqb (client_gone a) (client_gone c) && Bool.eqb (is_connect a) (is_connect c) && N.eqb (nreq a) (nreq c).
+  Bool.eqb (client_gone a) (client_gone c) && Bool.eqb (is_connect a) (is_connect c) && Bool.eqb (hs a) (hs c) &&
+  N.eqb (nreq a) (nreq c).
 Fixpoint list_eqb {A} (f : A -> A -> bool) (x y : list A) : bool :=
   match x, y with
   | [], [] => true
@@ -54,7 +55,7 @@ Definition gst_eqb (a c : gst) : bool :=
 
 (* ---------- tau successors ---------- *)
 Definition conn_taus (i : nat) : list label :=
-  [TRegister i; TChkConn i; TChkReq i; TDecide i; TConnRefuse i; TDec i; TDelete i].
+  [TRegister i; TChkConn i; THsFail i; TChkReq i; TDecide i; TConnRefuse i; TSilentClose i; TDec i; TDelete i].
 Definition all_taus (g : gst) : list label :=
   [TSvChk; TSvErr; TSdLock; TSdOut true; TSdOut false; TClLock; TClOut] ++
   flat_map conn_taus (seq 0 (length (conns g))).
@@ -119,8 +120,8 @@ Definition pc_code (p : cpc) : N :=
   end%N.
 Definition b2n (x : bool) : N := if x then 1%N else 0%N.
 Definition conn_code (c : cst) : N :=
-  (pc_code (pc c) * 8 + b2n (sock_closed c) * 4 + b2n (client_gone c) * 2 + b2n (is_connect c))%N.
-Definition conns_code (l : list cst) : N := fold_left (fun a c => (a * 256 + conn_code c)%N) l 1%N.
+  (pc_code (pc c) * 8 + b2n (sock_closed c) * 4 + b2n (client_gone c) * 2 + b2n (is_connect c) + b2n (hs c) * 136)%N.
+Definition conns_code (l : list cst) : N := fold_left (fun a c => (a * 512 + conn_code c)%N) l 1%N.
 Definition set_code (l : list nat) : N := fold_left (fun a i => N.lor a (N.shiftl 1 (N.of_nat i))) l 0%N.
 Definition sd_code (x : sdst) : N :=
   match x with SdIdle => 0 | SdCalled => 1 | SdHolding => 2 | SdOut false => 3 | SdOut true => 4
